@@ -1,7 +1,8 @@
 -------------------------------- MODULE MC_C18 --------------------------------
 (***************************************************************************)
 (* C18 — parameter defaults become runtime prop defaults.  Prop map        *)
-(* { a?: string, b?: number, cb?: () => void, 'q-k'?: string, z?: boolean }*)
+(* { a?: string, b?: number, cb?: () => void, 'q-k'?: string, z?: boolean, *)
+(*   u?: (() => void) | string }                                           *)
 (* x default objects mixing literal / expression / shorthand / getter /    *)
 (* method / async method / function value / quoted and computed-literal    *)
 (* keys / extra keys, and the dynamic forms (identifier, spread, computed).*)
@@ -18,9 +19,12 @@ ForB  == {<<>>, <<Entry("b", "ident", "lit", Lit(Num(7)))>>, <<Entry("b", "ident
 ForCb == {<<>>, <<Entry("cb", "ident", "fn", Lit(Num(1)))>>, <<Entry("cb", "ident", "method", Lit(Num(2)))>>,
           <<Entry("cb", "ident", "async_method", Lit(Num(3)))>>, <<Entry("cb", "ident", "expr", Ident("fcb", FALSE, FnR("dcb", Num(4))))>>}
 ForQ  == {<<>>, <<Entry("q-k", "str", "lit", Lit(S(<<113>>)))>>}
+(* u?: (() => void) | string — a union that includes Function: Vue still calls a function default as a factory *)
+ForU  == {<<>>, <<Entry("u", "ident", "expr", Ident("fu", FALSE, FnR("du", Num(5))))>>, <<Entry("u", "ident", "fn", Lit(Num(6)))>>}
 Extra == {<<>>, <<Entry("nope", "ident", "lit", Lit(Num(0)))>>}
 
 Statics == {[form |-> "static", entries |-> a \o b \o cb \o q \o x] : a \in ForA, b \in ForB, cb \in ForCb, q \in ForQ, x \in Extra}
+           \cup {[form |-> "static", entries |-> a \o cb \o u] : a \in ForA, cb \in ForCb, u \in ForU \ {<<>>}}
 
 DynObj == Obj(<< <<"a", S(<<100>>)>>, <<"cb", FnR("dcb", Num(4))>>, <<"b", FnR("fb", Num(9))>>, <<"other", Num(1)>> >>)
 Dynamics == {[form |-> "ident", entries |-> <<>>, dyn |-> DynObj],
